@@ -21,7 +21,8 @@ RULE = ("histories on one screen object (both variants, requested sizes 2..14 in
         "companion matrix of the row recursion has spectral radius < 1 and the theoretical covariance is its fixed point; "
         "long runs stay bounded. Non-trivial history: >=3 add_row interleaved with >=1 read/print. Distinct = canonical JSON."
         " Also: a never-read twin with the same seed must return the same rows; add_row() results are held un-copied; sibling-first construction as in C04."
-        " The stability law also draws small screens (nx 2..9) at L0 of 1e9 .. 8e9 pixels (open finding C05-unstable-recursion-extreme-outer-scale excluded for that slice only).")
+        " The stability law also draws small screens (nx 2..9) at L0 of 1e9 .. 8e9 pixels (open finding C05-unstable-recursion-extreme-outer-scale excluded for that slice only)."
+        " 9000-row histories on 4x4 / 3x3 screens with the exact shift check on every row; the caller marks the array it got read-only and reads again.")
 ASSUMPTIONS = ["prediction uses maps recovered on a twin instance with identical parameters (C04 establishes what they must be)",
                "stationary covariance uniqueness follows from spectral radius < 1 (discrete Lyapunov equation)"]
 
